@@ -31,16 +31,19 @@ def indexOf (n : String) : List String → Nat
     changed field exists, a real protocol, and — "an instance whose fields are all set" — every field readable
     on the constructed original -/
 def wf (c : Case) : Bool :=
-  let s := summarize c.chain
+  let s := summarize (fullChain c)
   !c.chain.isEmpty && s.lastAttrs && s.ok &&
   (match c.mutate with | some m => s.names.contains m | Option.none => true) &&
   (match c.op with | .pickle p => p ≤ 5 | _ => true) &&
+  c.chain.all (fun k => k.kind != .exc) && (!c.mutInPlace || c.mutate.isSome) &&
+  -- exception chains: opt-outs, user-written state methods and the legacy tuple call are left to ordinary chains
+  (!c.exc || (!s.anyOptOutOrUser && !isLegacy c.op)) &&
   (match construct s v0 c.assignUnset with
    | some i => s.names.all (fun n => (read s.layout i n).isSome)
    | Option.none => false)
 
 def spec (c : Case) (o : Obs) : Bool :=
-  let s := summarize c.chain
+  let s := summarize (fullChain c)
   match c.op with
   | .legacy len =>
     -- a tuple state is assigned positionally to the names the generated `__setstate__` knows
@@ -93,7 +96,7 @@ def optOutLoses (s : Summary) : Bool := s.lastOptOut && (inhLosesFields s || inh
 /-- the default reduction fails: protocols 0/1 refuse `__slots__` without `__getstate__`; a frozen class
     cannot take slot values back through `setattr` -/
 def dfltFails (s : Summary) (c : Case) : Bool :=
-  s.gs == .dflt &&
+  !c.exc && s.gs == .dflt &&
   ((isLow c.op && refuses01 s) ||
    (s.frozen && (match history s c c.hashedBefore with
                  | some x => anySlotSet s.layout x
@@ -107,14 +110,31 @@ def optedOut (c : Case) : Bool := c.chain.any (fun k => k.isAttrs && k.slots && 
 def k5 (s : Summary) (c : Case) : Bool :=
   s.gs == .dflt && c.op == .copy && s.cached && c.hashedBefore && c.mutate.isSome
 
+/-- K10d: a frozen auto_exc class that resolves `BaseException.__setstate__` and keeps fields in `__dict__`:
+    the copy's `__dict__` is restored with `setattr` → FrozenInstanceError on every route -/
+def k10d (s : Summary) (c : Case) : Bool :=
+  c.exc && s.gs == .dflt && s.frozen &&
+  (match history s c c.hashedBefore with
+   | some x => !(dictState s c.op x).isEmpty
+   | Option.none => false)
+
+/-- K10e: an auto_exc instance is rebuilt as `cls(*args)`; whatever lives in a *slot* and is not what `args`
+    recorded at construction is lost: an init=False field (unset on the copy), or a field assigned later (the copy
+    gets the construction-time value) -/
+def k10e (s : Summary) (c : Case) : Bool :=
+  c.exc && s.attrs.any (fun p => decide (p.1.name ∈ s.slotNames) &&
+    (!p.1.init || (c.mutate == some p.1.name && !c.mutInPlace)))
+
 def known (c : Case) : List String :=
-  let s := summarize c.chain
+  let s := summarize (fullChain c)
   if isLegacy c.op then [] else
   (if k1 s then ["K1"] else []) ++
   (if k2 s then ["K2"] else []) ++
   (if k5 s c then ["K5"] else []) ++
   (if (dfltFails s c && optedOut c) || optOutLoses s then ["K11"] else []) ++
-  (if dfltFails s c && !optedOut c then ["K10b"] else [])
+  (if dfltFails s c && !optedOut c then ["K10b"] else []) ++
+  (if k10d s c then ["K10d"] else []) ++
+  (if k10e s c then ["K10e"] else [])
 
 def check : Check Case Obs := { model := model, spec := spec, wf := wf, known := known }
 
